@@ -269,7 +269,7 @@ func chainPair(r *rand.Rand) (tx, rl []byte) {
 
 // bound relative to t for sentinel / boundary coverage
 func genBound(r *rand.Rand, t int64, startSide bool) int64 {
-	c := []int64{-1, -1, -1, t - 1, t, t + 1, 0, -2, minI64, maxI64, t - 1000, t + 1000}
+	c := []int64{-1, -1, -1, t - 1, t, t + 1, 0, 0, -2, minI64, maxI64, t - 1000, t + 1000}
 	_ = startSide
 	return pick(r, c)
 }
@@ -315,7 +315,7 @@ func gen(r *rand.Rand) input {
 	// pre-execute: in most cases make the earlier clauses pass so that the later ones are reached
 	if r.Intn(4) != 0 {
 		in.ChainTx = append([]byte{}, in.ChainR...)
-		in.T = pick(r, []int64{0, 1000, 5000, 1_700_000_000_000, 1_700_000_000_123, 17})
+		in.T = pick(r, []int64{0, 1000, 5000, 1_700_000_000_000, 1_700_000_000_123, 17, -5000, -1, -60000})
 		in.W = pick(r, []int64{0, 1000, 60000, 60000})
 		in.E = pick(r, []int64{floor1000(in.T + 999), floor1000(in.T + in.W), floor1000(in.T+in.W/2+999)})
 	}
@@ -363,7 +363,9 @@ func gen(r *rand.Rand) input {
 func genAdmit(r *rand.Rand) input {
 	in := input{Kind: kindAdmit, Div: 1000, Rel: true, W: 60000, Max: 2}
 	in.ChainTx, in.ChainR = chainPair(r)
-	in.E = pick(r, []int64{-20000, -10000, 10000, 30000, 50000, 50000, 70000, 80000, 10000, 30000})
+	// offsets 0/1000/W/W+1000 land (after flooring to a second) within 1 s of the boundaries now and now+W;
+	// if the clock crosses the boundary between the two readings the comparator treats the case as vacuous
+	in.E = pick(r, []int64{-20000, -10000, 10000, 30000, 50000, 70000, 80000, 0, 1000, 60000, 61000, 0, 1000, 60000, 61000})
 	if r.Intn(8) == 0 {
 		in.Mis = pick(r, []int64{1, 500, 999})
 	}
@@ -406,7 +408,7 @@ func exhaustive(w *emit.Writer) {
 		}
 	}
 	// kind 2: all sentinel/boundary combinations of one action range and the auth range, counts max-1..max+1
-	for _, t := range []int64{5000, 0} {
+	for _, t := range []int64{5000, 0, -3000} {
 		bounds := []int64{-1, -2, 0, t - 1, t, t + 1}
 		for _, max := range []uint8{1, 2} {
 			for n := int(max) - 1; n <= int(max)+1; n++ {
